@@ -100,6 +100,9 @@ def gen_history(rng, gg):
         else:
             if k + 1 < n:
                 mus.append(("exclude", k, rng.randrange(k + 1, n)))
+                if rng.random() < 0.5:
+                    # a second exclusion for the same rule (it REPLACES the first) - and must take effect like the first did
+                    mus.append(("exclude", k, rng.randrange(k + 1, n)))
             else:
                 mus.append(("flag", k, True))
     if rng.random() < 0.25:
@@ -173,6 +176,8 @@ def run_history(P, gr, strings, mus, warm=True, between=True):
 
 
 CORPUS = [
+    ([("r0", ("rep", 0, None, ("ref", 1)), None), ("r1", ("rep", 1, 2, ("range", 97, 98)), None), ("r2", ("lit", "ab", False), None), ("r3", ("lit", "ba", False), None)],
+     ["abab", "ab", "ba", "baba"], [("exclude", 1, 2), ("exclude", 1, 3)]),
     ([("r0", ("rep", 1, None, ("ref", 1)), None), ("r1", ("lit", "a", False), None)], ["abab", "aab", "ba"],
      [("clear", 0), ("redefine", 1, ("lit", "b", False))]),
     ([("r0", ("rep", 0, None, ("ref", 1)), None), ("r1", ("alt", [("lit", "a", False), ("lit", "ab", False)], False), None)], ["abcabc", "ab", "abc"],
